@@ -300,7 +300,7 @@ def load_known(prop_id: str) -> list:
 
 
 def write_replay(prop_id: str, name: str, payload: dict) -> str:
-    d = os.path.join(VERIF, "out", "replays", prop_id)
+    d = os.path.join(os.environ.get("VERIF_SCRATCH_OUT") or os.path.join(VERIF, "out"), "replays", prop_id)
     os.makedirs(d, exist_ok=True)
     p = os.path.join(d, name + ".json")
     with open(p, "w") as fh:
@@ -309,7 +309,8 @@ def write_replay(prop_id: str, name: str, payload: dict) -> str:
 
 
 def write_evidence(ctx: Ctx, audit: dict, extra: dict, status: str):
-    os.makedirs(os.path.join(VERIF, "evidence"), exist_ok=True)
+    evdir = os.path.join(os.environ["VERIF_SCRATCH_OUT"], "evidence") if os.environ.get("VERIF_SCRATCH_OUT") else os.path.join(VERIF, "evidence")
+    os.makedirs(evdir, exist_ok=True)
     obligations = len(ctx.obligations)
     discharged = sum(1 for o in ctx.obligations if o[1])
     cov = {
@@ -346,7 +347,7 @@ def write_evidence(ctx: Ctx, audit: dict, extra: dict, status: str):
         "violations": len(ctx.violations),
         "known_findings_reproduced": [k["id"] for k in ctx.known_hits],
     }
-    with open(os.path.join(VERIF, "evidence", f"{ctx.prop}.json"), "w") as fh:
+    with open(os.path.join(evdir, f"{ctx.prop}.json"), "w") as fh:
         json.dump(ev, fh, indent=1, default=str)
 
 
@@ -397,9 +398,7 @@ def run_check(prop_id: str, body, argv=None):
         extra["pin"] = pin
         for k in ctx.known_hits:
             print(f"KNOWN-FINDING: property={prop_id} {k['id']}: {k['what']}")
-        if ctx.violations:
-            status = "violation"
-            code = 1
+        def report_violations():
             ctx.violations.sort(key=lambda v: bool(v[2]))  # failing inputs first
             for i, (sig, replay, no_input) in enumerate(ctx.violations[:3]):
                 name = f"{tier}-seed{seed}-{i}"
@@ -411,6 +410,11 @@ def run_check(prop_id: str, body, argv=None):
                     f"VIOLATION property={prop_id} replay={path}"
                     + (" no-failing-input-found" if no_input else "")
                 )
+
+        if ctx.violations:
+            status = "violation"
+            code = 1
+            report_violations()
         else:
             bad = [o for o in ctx.obligations if not o[1]]
             if bad:
@@ -422,6 +426,14 @@ def run_check(prop_id: str, body, argv=None):
         print(f"ERROR property={prop_id} infrastructure: {e}", file=sys.stderr)
         status = "infra-error: " + str(e)[:500]
         code = 2
+        if any(not v[2] for v in ctx.violations):
+            # a failing input on the real code was already found before a later part of the check could not run: it stands
+            ctx.violations = [v for v in ctx.violations if not v[2]]
+            for k in ctx.known_hits:
+                print(f"KNOWN-FINDING: property={prop_id} {k['id']}: {k['what']}")
+            report_violations()
+            status = "violation (a later part of the check did not run: " + str(e)[:300] + ")"
+            code = 1
     except Exception as e:  # noqa
         traceback.print_exc()
         status = "infra-error: " + repr(e)[:500]
